@@ -4,7 +4,7 @@
 EXTENDS EchHello, Json
 
 AllOuters == {"O1", "O2", "O3", "O4"}
-AllInners == {"I1", "I2", "I3", "I4", "I5", "I6"}
+AllInners == {"I1", "I2", "I3", "I4", "I5", "I6", "I7"}
 O12 == {"O1", "O2"}
 I12 == {"I1", "I3"}
 KL_one   == { <<"K1">> }
@@ -24,7 +24,7 @@ FaultOps == {"none", "svOdd", "sniNameType", "sniTwoNames", "innerSvOdd", "inner
              "innerNo13", "innerNoSv", "nonZeroPad", "eoeOdd", "eoeBadLen", "eoeOutOfOrder", "eoeRepeated", "eoeAmplify", "eoeMissing", "eoeRefsEch",
              "eoeRefsEoe", "eoeTwice", "eoeRefsSni"}
 TamperOps == {"none", "dupEchBefore", "dupEchInnerBefore", "dupEchAfter"} \cup Tampers
-PassOpsC == {"none", "noEch", "grease", "no13", "noSv"}
+PassOpsC == {"none", "noEch", "grease", "no13", "noSv", "innerTypeInOuter"}
 NoneOp == {"none"}
 NoneUnlisted == {"none", "unlistedSuite"}
 StructOps == {"structOuter", "structInner"}
